@@ -54,11 +54,11 @@ def run_case(ctx, rnd, where):
         backend = c22.open_backend(path)
         past = {}
         steps = []
-        nprior = rnd.randint(0, 4)
+        nprior = rnd.randint(1 if bad else 0, 4)
         try:
             for i in range(nprior):
                 hist.run(expr, backend)
-                st = c02.gen_step(rnd, world, past) if not (bad and i == nprior - 1 and rnd.random() < 0.7) else ["nothing"]
+                st = c02.gen_step(rnd, world, past) if not (bad and i == nprior - 1 and rnd.random() < 0.85) else ["nothing"]
                 c02.apply_step(st, world, past)
                 steps.append(st)
         finally:
